@@ -140,7 +140,8 @@ func runAstdiff(cases []Case, outDir string) {
 				for _, iv := range cl.ChangedIntervals() {
 					fmt.Fprintf(&cb, " (%d %d)", int(iv.Start), int(iv.End))
 				}
-				cb.WriteString("))")
+				// where the file node begins (the "package" keyword): the comments above it end before it
+				fmt.Fprintf(&cb, ") (filepos %d))", int(f.Package))
 				fmt.Fprintln(lw, cb.String())
 				snap = next
 				f = fout
